@@ -442,7 +442,10 @@ def u_ti_clear_tail(ctx):
     idx = [i for i, st_ in enumerate(fn.body) if isinstance(st_, _ast.Assign) and getattr(st_.targets[0], "id", None) == "kitty_widgets"]
     if len(idx) != 1:
         raise Unsupported("_ti_clear_images: the statement `kitty_widgets = []` was not found exactly once")
-    tail = fn.body[idx[0]:]
+    start = idx[0]
+    while start > 0 and isinstance(fn.body[start - 1], (_ast.Assign, _ast.AnnAssign, _ast.Expr)) and "image_cviews" in _ast.unparse(fn.body[start - 1]):
+        start -= 1          # simple statements about the two view sets that sit between the shard walk and `kitty_widgets = []`
+    tail = fn.body[start:]
     eng = ctx.engine("C18/_ti_clear_images[tail]", "C18")
     eng.default_replay = "C18.overlay"
     eng.number_loops(fn)
@@ -517,6 +520,8 @@ def u_ti_clear_tail(ctx):
     eng.methods[("symlist", "__contains__")] = sl_contains
 
     def clear_images(e, s, recv, a, k):
+        for exc in ("KeyboardInterrupt", "OSError"):
+            e.raise_(ExcVal(exc), e.fork(s), fault=True)        # writing the delete commands may be interrupted / fail: nothing deleted
         s = e.fork(s)
         s.ghost["out"] = s.ghost["out"] + [("clear_images", a)]
         return [(None, s)]
@@ -554,6 +559,10 @@ def u_ti_clear_tail(ctx):
     outs = eng.run(tail, st)
     for kind, val, s in outs:
         if kind == "raise":
+            if s.ghost.get("faulted") and val.cls in ("KeyboardInterrupt", "OSError"):
+                # the deletes did not go out: the views stay on the books, so that the next redraw still deletes what has disappeared
+                eng.oblige(f"deletes-not-written({val.cls}):views-still-on-the-books", s, s.H(self_)["_ti_image_cviews"] is old, kind="raise")
+                continue
             eng.oblige(f"no-exception:{val.cls}", s, False, kind="raise")
             continue
         out = s.ghost["out"]
